@@ -158,6 +158,7 @@ class Ctl:
     nxt = 1
     log = []
     msgs = []
+    served_proc = None
 
 
 def _finish():
@@ -310,6 +311,7 @@ class FakeHubConnection:
         Ctl.msgs.append(pickle.loads(msg))          # what is on the wire
         if Ctl.fault == 'q':
             raise ConnectionError('lost connection to the worker during a call')
+        Ctl.served_proc = self.proc
         con = FakeWorkerConnection(msg)
         _FakeAmsg.current = con
         worker_proc.worker('sock', 0, self.proc.mod.get_handler)      # REAL request loop
@@ -574,6 +576,177 @@ class System:
         return r + '|' + o + '|' + mk + '|w%d ' % w + self.dump(w)
 
 
+# ---------------------------------------------------------------- multi tenant system
+class MTSystem(System):
+    """MultiTenantPool + multitenant_worker.py.  ops:
+         R w | C w1,w2 cid m db us gs rc dc sc f | T w1,w2 cid db us ps f | D cid
+       output: one JSON list per history (monitors only, no model)"""
+
+    def restart(self, w):
+        pool = self.pool
+        old = self.pid_of.pop(w, None)
+        if old is not None:
+            pool.worker_disconnected(old)
+            pool._server.procs.pop(old).free()
+        pid = self.next_pid
+        self.next_pid += 1
+        pool._server.procs[pid] = Proc()
+        Ctl.fault = 'n'
+        PickleProxy.armed = None
+        self.loop.run_until_complete(pool._attach_worker(pid))
+        self.pid_of[w] = pid
+        return {'res': 'ok', 'w': w, 'dump': self.mdump(w)}
+
+    def mdump(self, w):
+        pid = self.pid_of.get(w)
+        if pid is None or pid not in self.pool._workers:
+            return None
+        sw = self.pool._workers[pid]
+        m = self.pool._server.procs[pid].mod
+        last = sw._last_pickled_state
+        srv = {}
+        for cid, ts in sw._cache.items():
+            srv[str(cid)] = {'pending_invalidation': cid in sw._invalidated_clients,
+                             'gs': ident('gs', ts.global_schema_pickle), 'sc': ident('sc', ts.system_config),
+                             'dbs': {str(db): [ident('us', d.user_schema_pickle), ident('rc', d.reflection_cache),
+                                               ident('dc', d.database_config)] for db, d in ts.dbs.items()}}
+        wk = {}
+        for cid, cs in m.clients.items():
+            wk[str(cid)] = {'gs': code('gs', cs.global_schema), 'sc': code('sc', cs.instance_config),
+                            'dbs': {str(db): [code('us', d.user_schema), code('rc', d.reflection_cache),
+                                              code('dc', d.database_config)] for db, d in cs.dbs.items()}}
+        ls = m.LAST_STATE
+        return {'blast': 0 if last is None else pickle.loads(last).sid, 'srv': srv,
+                'wlast': None if ls is None else [ls.sid, code('us', ls.root)], 'wk': wk}
+
+    def served(self):
+        qq = self.pool._workers_queue._queue
+        return qq
+
+    def mcompile(self, avail, cid, meth, db, us, gs, rc, dc, sc, f):
+        q = self.set_queue(avail)
+        if not q:
+            return {'res': 'nw'}
+        before = list(q)
+        Ctl.ret_state = meth == 'c1'
+        Ctl.log = []
+        Ctl.msgs = []
+        self.arm(f)
+        name = {'c1': 'compile', 'c0': 'compile', 'nb': 'compile_notebook', 'sq': 'compile_sql',
+                'gq': 'compile_graphql'}[meth]
+        try:
+            res = self.loop.run_until_complete(getattr(self.pool, name)(
+                db, obj('us', us), obj('gs', gs), obj('rc', rc), obj('dc', dc), obj('sc', sc),
+                b'req', 'text', client_id=cid))
+            r = 'ok:0'
+            if name == 'compile':
+                ps = res[1]
+                if ps is not None:
+                    self.states[pickle.loads(ps).sid] = ps
+                    r = 'ok:%d' % pickle.loads(ps).sid
+        except Exception as e:
+            if os.environ.get('C17_DEBUG'):
+                import traceback
+                traceback.print_exc()
+            r = 'E' + err_name(e)
+        w = self.who(before)
+        o = self.obs(meth, None)
+        return {'res': r, 'obs': o.split('!')[0], 'flags': o.split('!')[1:], 'w': w, 'dump': self.mdump(w),
+                'sent': self.mt_sent()}
+
+    def who(self, before):
+        """the worker the real queue handed out = the one that was moved by release()"""
+        if Ctl.msgs:
+            for w, pid in self.pid_of.items():
+                if self.pool._server.procs.get(pid) is Ctl.served_proc:
+                    return w
+        after = list(self.pool._workers_queue._queue)
+        for sw in after:
+            if not before or sw is not before[0]:
+                pass
+        # request lost before reaching a process: the released worker is at the front (compile*)
+        # or at the back (compile_in_tx)
+        return self.name_of(after[0]) if after else -1
+
+    def mt_sent(self):
+        if len(Ctl.msgs) != 1:
+            return None
+        name, a = Ctl.msgs[0]
+        if name == 'call_for_client':
+            ps = a[1]
+            if ps is None:
+                return {'schema': None, 'invalidation': list(a[2])}
+            dbs = None if ps.dbs is None else {str(k): [x is not None for x in v] for k, v in ps.dbs.items()}
+            return {'schema': {'dbs': dbs, 'gs': ps.global_schema is not None, 'sc': ps.instance_config is not None},
+                    'invalidation': list(a[2])}
+        if name == 'compile_in_tx':
+            return {'reuse': a[4] == st_mod.REUSE_LAST_STATE_MARKER, 'client': a[1], 'db': a[2], 'us': a[3] is not None}
+        return None
+
+    def mtx(self, avail, cid, db, us, ps, f):
+        q = self.set_queue(avail)
+        if not q:
+            return {'res': 'nw'}
+        before = list(q)
+        Ctl.log = []
+        Ctl.msgs = []
+        self.arm(f)
+        pso = None
+        if ps != 0:
+            pso = self.states.get(ps)
+            if pso is None:
+                pso = pickle.dumps(CState(ps), -1)
+        try:
+            res = self.loop.run_until_complete(self.pool.compile_in_tx(
+                db, obj('us', us), 7, pso, 0, b'req', 'text', False, client_id=cid))
+            sid = pickle.loads(res[1]).sid
+            self.states[sid] = res[1]
+            r = 'ok:%d' % sid
+        except Exception as e:
+            if os.environ.get('C17_DEBUG'):
+                import traceback
+                traceback.print_exc()
+            r = 'E' + err_name(e)
+        qq = self.pool._workers_queue._queue
+        w = self.name_of(qq[-1]) if qq else -1
+        ts = [e for e in Ctl.log if e[0] == 'T']
+        o = 'T%d,%d' % ts[-1][1:] if ts else '-'
+        return {'res': r, 'obs': o, 'flags': [], 'w': w, 'dump': self.mdump(w), 'sent': self.mt_sent()}
+
+    def drop(self, cid):
+        self.pool.drop_tenant(cid)
+        return {'res': 'ok'}
+
+
+def run_history_mt(loop, line):
+    import json
+    s = MTSystem(loop)
+    out = []
+    try:
+        n = 0
+        for part in line.split(';'):
+            p = part.split()
+            if not p:
+                continue
+            n += 1
+            Ctl.nxt = n
+            if p[0] == 'R':
+                out.append(s.restart(int(p[1])))
+            elif p[0] == 'C':
+                avail = [int(x) for x in p[1].split(',')]
+                out.append(s.mcompile(avail, int(p[2]), p[3], *[int(x) for x in p[4:10]], p[10]))
+            elif p[0] == 'T':
+                avail = [int(x) for x in p[1].split(',')]
+                out.append(s.mtx(avail, int(p[2]), int(p[3]), int(p[4]), int(p[5]), p[6]))
+            elif p[0] == 'D':
+                out.append(s.drop(int(p[1])))
+            else:
+                raise ValueError(part)
+    finally:
+        s.close()
+    return json.dumps(out, separators=(',', ':'))
+
+
 def run_history(loop, line):
     s = System(loop)
     out = []
@@ -609,8 +782,7 @@ def main():
     logging.disable(logging.CRITICAL)
     out = []
     if MODE == 'mt':
-        import c17_mt
-        runner = lambda l: c17_mt.run_history(sys.modules['__main__'], loop, l)
+        runner = lambda l: run_history_mt(loop, l)
     else:
         runner = lambda l: run_history(loop, l)
     for line in sys.stdin:
